@@ -1,4 +1,5 @@
 """C08 - indexing and apply_mask agree with dense indexing (values, positions and resulting shape)."""
+import numpy as np
 import torch
 from hypothesis import strategies as st
 
@@ -160,11 +161,17 @@ def execute(case):
         rows = case["rows"]
         Mr = len(rows)
         idx = torch.tensor(rows, dtype=torch.int64).reshape(Mr, d)
-        form = ["tensor", "tensor", "list", "tuples"][xs["seed"] % 4] if Mr > 0 else "tensor"
+        # numpy index arrays of the usual integer dtypes index like int64 arrays in numpy (uint8 is NOT a mask there)
+        form = ["tensor", "tensor", "list", "tuples", "np_int64", "np_uint8", "np_int16", "np_int32_view"][xs["seed"] % 8] if Mr > 0 else "tensor"
         if form == "list":          # the docstring declares `indices (list[list[int]])`
             got = lib(lambda: x.apply_mask([list(r) for r in rows]))
         elif form == "tuples":
             got = lib(lambda: x.apply_mask([tuple(r) for r in rows]))
+        elif form.startswith("np_"):
+            a = idx.numpy().astype({"np_int64": np.int64, "np_uint8": np.uint8, "np_int16": np.int16, "np_int32_view": np.int32}[form])
+            if form == "np_int32_view":
+                a = np.ascontiguousarray(a[::-1])[::-1]          # negative stride
+            got = lib(lambda: x.apply_mask(a))
         else:
             got = lib(lambda: x.apply_mask(idx))
         ck.label("apply_mask", "M=%d" % Mr, "mask_form:" + form)
